@@ -46,6 +46,20 @@ CLAIMED = {
    note=("Sampling of argv shapes and histories; only locales C / C.utf8 / POSIX are installed (others exercise libc's failure path); templates that ask for "
          "nondeterminism (now, get_random, get_env) are excluded by construction; GIT_* and RUST_LOG are related variables and are not perturbed."),
    design="DESIGN.md §4 C14"),
+ "C12": dict(
+   level="exploration",
+   technique="deterministic simulation: two-process pipeline with the simulator as the pipe (seeded chunking, clock advance between hops, truncation / bit flip / drop / duplication / schema rewrite faults)",
+   text=("The simulator runs a real zerv producer (version / flow on simulated git histories, on --source none with hostile overrides, or a literal document) "
+         "to completion, then delivers its Zerv RON bytes in seeded chunks to 1-3 real consumer hops at a frozen and at an advanced simulated instant: "
+         "re-emission must be byte-identical and semver / pep440 / template renderings through the pipe must equal the direct ones. Then 12-26 damaged "
+         "deliveries per document (truncation at any byte, bit flip, dropped / duplicated span, 14 structural schema rewrites) must be refused cleanly or, "
+         "if accepted, yield a placement-valid object that is a fixed point of a further hop; a rewrite that violates the placement rules (judged by an "
+         "independent validator written from the property text) must be refused. Every emitted object is read back by an independent RON reader and "
+         "passes the validator."),
+   note=("The all-field-values reading is covered only as far as the producers reach; structural rewrites are document mutation (input generation) and "
+         "labelled so in the evidence. Known finding KF-C12-dirty-restamp (dirty objects are re-stamped when the clock advanced) is listed in "
+         "known_findings.json and identified narrowly."),
+   design="DESIGN.md §4 C12, §5.1"),
 }
 
 NA = {
